@@ -12,4 +12,6 @@ var Registry = map[string]func(p *load.Prog, r *oblig.Run){
 	"C03": C03,
 	"C04": C04,
 	"C06": C06,
+	"C14": C14,
+	"C15": C15,
 }
